@@ -318,6 +318,9 @@ func (r *tileHashReader) ReadHashes(indexes []int64) ([]Hash, error) {
 		tileOrder[tile] = len(tiles)
 		tiles = append(tiles, tile)
 	}
+	// Tiles [0, nstx) are authenticated by recomputing the tree hash.
+	// (There may be fewer of them than len(stx): one tile can hold several of the hashes.)
+	nstx := len(tiles)
 
 	// Plan to fetch tiles containing the indexes,
 	// along with any parent tiles needed
@@ -398,7 +401,7 @@ func (r *tileHashReader) ReadHashes(indexes []int64) ([]Hash, error) {
 	}
 
 	// Authenticate full tiles against their parents.
-	for i := len(stx); i < len(tiles); i++ {
+	for i := nstx; i < len(tiles); i++ {
 		tile := tiles[i]
 		p := tileParent(tile, 1, r.tree.N)
 		j, ok := tileOrder[p]
